@@ -12,7 +12,7 @@ BUDGET = dict(quick=3000, thorough=150000)
 ANCHORS = ['numdifftools.extrapolation:EpsAlg.__call__', 'numdifftools.extrapolation:Dea.__call__',
            'numdifftools.extrapolation:Dea._dea', 'numdifftools.extrapolation:Dea._shift_table',
            'numdifftools.extrapolation:Dea._update_res3la']
-MIN_COUNTERS = dict(quick={'epsalg_entries_asserted': 3000, 'epsalg_recovery_asserted': 300,
+MIN_COUNTERS = dict(quick={'epsalg_entries_asserted': 2700, 'epsalg_complex_entries_asserted': 600, 'epsalg_recovery_asserted': 300,
                            'dea_calls_total_asserted': 50000, 'dea_floor_asserted': 50000,
                            'dea_first_three_asserted': 1500, 'dea_table_membership_asserted': 3000, 'dea_branch:table_capped_at_limexp': 100,
                            'dea_branch:all_converged': 100, 'dea_branch:partial_convergence_shrinks_table': 100},
@@ -69,6 +69,10 @@ def setup(ctx, mon):
 
 def cases(rng, tier, shard, nshards):
     for i in range(BUDGET[tier] // nshards):
+        if i % 10 == 9:
+            # complex-valued sequences (the terms of a limit along a complex path): EpsAlg only
+            yield dict(family='complex_transients', k=int(rng.integers(1, 4)), seed=int(rng.integers(0, 2 ** 31)))
+            continue
         fam = FAMILIES[(i + shard) % len(FAMILIES)]
         u = rng.random()
         length = int(rng.integers(1, 16)) if u < 0.4 else int(rng.integers(16, 60)) if u < 0.8 \
@@ -246,7 +250,99 @@ def _min_rel_diff(cols):
     return 1.0 if worst is None else worst
 
 
+def _wynn_mpc(terms, signs, eps):
+    """Highest even entry of the epsilon table of complex terms in 400-bit arithmetic, every input moved by a relative
+    eps * (s1 + i s2) and every computed entry likewise (signs: iterator over {-1, 0, 1}); also every table difference."""
+    import mpmath
+    n_terms = len(terms)
+    k = (n_terms - 1) // 2 * 2
+
+    def wob():
+        return 1 + eps * mpmath.mpc(int(next(signs)), int(next(signs)))
+    prev = [mpmath.mpc(0)] * (n_terms + 1)
+    cur = [mpmath.mpc(t.real, t.imag) * wob() for t in terms]
+    diffs = []
+    col = 0
+    while col < k:
+        new = []
+        for n in range(len(cur) - 1):
+            d = cur[n + 1] - cur[n]
+            if d == 0:
+                return None, None
+            diffs.append((d, max(abs(cur[n + 1]), abs(cur[n]))))
+            new.append((prev[n + 1] + 1 / d) * wob())
+        prev, cur = cur, new
+        col += 1
+    return cur[-1], diffs
+
+
+def run_complex(case, ctx):
+    import itertools
+    import mpmath
+    from numdifftools.extrapolation import EpsAlg
+    rng = np.random.default_rng(case['seed'])
+    k = case['k']
+    L = complex(np.round(rng.normal(), 3), np.round(rng.normal(), 3))
+    radii = np.sort(rng.uniform(0.15, 0.85, size=k))
+    while k > 1 and np.min(np.diff(radii)) < 0.08:
+        radii = np.sort(rng.uniform(0.15, 0.85, size=k))
+    qs = [complex(r * np.exp(1j * rng.uniform(-math.pi, math.pi))) for r in radii]
+    amps = [complex(rng.normal(), rng.normal()) for _ in range(k)]
+    N = 2 * k + 1 + int(rng.integers(0, 3))
+    seq = [complex(L + sum(a * q ** n for a, q in zip(amps, qs))) for n in range(N)]
+    form = ['python_complex', 'numpy_complex128', 'zero_d_array'][case['seed'] % 3]
+    given = seq if form == 'python_complex' else [np.complex128(v) for v in seq] if form == 'numpy_complex128' else [np.array(v) for v in seq]
+    ctx.count('complex_sequences_given_as:' + form)
+    ea = EpsAlg()
+    outs = []
+    try:
+        for s_ in given:
+            outs.append(complex(ea(s_)))
+    except Exception as exc:
+        ctx.reject('epsalg_raised', observed=repr(exc), detail=dict(at=len(outs), complex_terms=True, form=form))
+        return
+    old = mpmath.mp.prec
+    mpmath.mp.prec = 400
+    try:
+        eps = mpmath.mpf(EPS)
+        for n_terms in range(1, N + 1):
+            prefix = seq[:n_terms]
+            exact, base = _wynn_mpc(prefix, itertools.repeat(0), eps)
+            if exact is None or any(abs(d) < 1e-6 * sc for d, sc in base):
+                ctx.count('epsalg_skipped_vanishing_difference')
+                return
+            spread = mpmath.mpf(0)
+            for run in range(8):
+                sg = iter(rng.integers(-1, 2, size=4 * (n_terms + 2) * (n_terms + 2)))
+                v, diffs = _wynn_mpc(prefix, sg, eps)
+                if v is None or any(abs(d - d0) > UNRESOLVED * abs(d0) for (d, _), (d0, _) in zip(diffs, base)):
+                    ctx.count('epsalg_skipped_vanishing_difference')
+                    return
+                spread = max(spread, abs(v - exact))
+            obs = outs[n_terms - 1]
+            err = float(abs(mpmath.mpc(obs.real, obs.imag) - exact)) if (math.isfinite(obs.real) and math.isfinite(obs.imag)) else math.inf
+            bound = C_EPS * (float(spread) + EPS * float(abs(exact)))
+            ctx.count('epsalg_complex_entries_asserted')
+            ctx.maximum('epsalg_complex_err/bound(C=%g)' % C_EPS, err / bound if bound > 0 else (0.0 if err == 0 else math.inf))
+            if not err <= bound:
+                ctx.reject('epsalg_not_highest_even_table_entry', observed=obs, expected=complex(exact),
+                           detail=dict(n_terms=n_terms, err=err, bound=bound, seq=prefix, complex_terms=True, form=form))
+                return
+            if n_terms == 2 * k + 1:
+                ctx.count('epsalg_complex_recovery_asserted')
+                lb = bound + float(abs(exact - mpmath.mpc(L.real, L.imag)))
+                if not abs(obs - L) <= lb:
+                    ctx.reject('epsalg_limit_not_recovered_from_2k+1_terms', observed=obs, expected=L,
+                               detail=dict(k=k, seq=prefix, complex_terms=True))
+                    return
+    finally:
+        mpmath.mp.prec = old
+    ctx.nontrivial(('complex_transients', k, form))
+
+
 def run_case(case, ctx):
+    if case['family'] == 'complex_transients':
+        return run_complex(case, ctx)
     from numdifftools.extrapolation import EpsAlg, Dea, dea3
     seq, meta = make_sequence(case)
     N, limexp = len(seq), case['limexp']
